@@ -175,7 +175,7 @@ func checkC07(c *Ctx, r *Report) {
 	var roots []*ssa.Function
 	for _, k := range []string{headersPkg + ".parseRangeHeader", headersPkg + ".parseRangeNumber", "(" + headersPkg + ".rangeHeader).SliceSize", headersPkg + ".validateRange", "(*" + proxyPkg + ".Proxy).handleRangeRequest", headersPkg + ".ParseHeaderDirective"} {
 		fs := c.FuncsNamed(k)
-		if len(fs) == 0 {
+		if len(fs) == 0 && k != headersPkg+".validateRange" { // the validator may have been inlined into SliceSize (R3 then decides the returns themselves)
 			r.Undecided("C07.R1", k, "-", "unresolved anchor")
 		}
 		roots = append(roots, fs...)
@@ -399,6 +399,97 @@ func checkC07(c *Ctx, r *Report) {
 			}
 			r.Check(ifrTest != nil && instrDominates(ifrTest, call), "C07.R5", "the 416 is written only after If-Range was evaluated", c.InstrPos(call), "the If-Range test dominates the 416 write", "a Range that does not fit the stored body is refused with 416 before If-Range is looked at: a guarded resume (`Range: bytes=1000-` with `If-Range: \"old\"`) against a replaced, shorter body gets 416 instead of the full 200 the mismatching validator asks for")
 		})
+		// an If-Range that names no validator (an empty field value) matches nothing either: (1) the header parser records
+		// an If-Range for every value the field can have — no way through its If-Range arm skips the store — and (2) where
+		// the entity-tag form is compared with the stored ETag, the empty tag is a mismatch whatever is stored (an origin
+		// that sent no ETag leaves the stored one empty too)
+		for _, pf := range c.FuncsNamed(headersPkg + ".ParseHeaderDirective") {
+			for _, g := range append([]*ssa.Function{pf}, closuresOf(pf)...) {
+				for _, b := range g.Blocks {
+					iff, ok := b.Instrs[len(b.Instrs)-1].(*ssa.If)
+					if !ok {
+						continue
+					}
+					bo, ok := iff.Cond.(*ssa.BinOp)
+					if !ok || bo.Op != token.EQL {
+						continue
+					}
+					if k, isC := constString(bo.Y); !isC || k != "If-Range" {
+						continue
+					}
+					isStore := func(in ssa.Instruction) bool {
+						st, ok := in.(*ssa.Store)
+						if !ok {
+							return false
+						}
+						_, pth := fieldPath(st.Addr)
+						return len(pth) >= 2 && pth[len(pth)-2] == "IfRange" && pth[len(pth)-1] == "value"
+					}
+					// the arm ends where the loop goes on to the next header (back to a block that dominates this test)
+					// or the function returns
+					leaves := walkFrom(pos{b.Succs[0], 0}, isStore, func(in ssa.Instruction) bool {
+						if _, isRet := in.(*ssa.Return); isRet {
+							return true
+						}
+						blk := in.Block()
+						return in == blk.Instrs[0] && blk != b.Succs[0] && blk.Dominates(b)
+					}, nil)
+					r.Check(len(leaves) == 0, "C07.R5", "every If-Range field value is recorded as an If-Range", c.InstrPos(iff), "no way through the parser's If-Range arm skips the store of IfRange.value", "the header parser can leave If-Range unset although the request carries the field (an empty value): the Range is then served as if no If-Range had been sent, instead of the full 200 a validator that matches nothing asks for")
+				}
+			}
+		}
+		{
+			emptyRefused := false
+			for _, hc := range helperContexts(f, 2) {
+				g := hc.fn
+				for _, b := range g.Blocks {
+					iff, ok := b.Instrs[len(b.Instrs)-1].(*ssa.If)
+					if !ok {
+						continue
+					}
+					cv, positive := stripNot(iff.Cond)
+					bo, ok := cv.(*ssa.BinOp)
+					if !ok || (bo.Op != token.EQL && bo.Op != token.NEQ) {
+						continue
+					}
+					var other ssa.Value
+					if k, isC := constString(bo.Y); isC && k == "" {
+						other = bo.X
+					} else if k, isC := constString(bo.X); isC && k == "" {
+						other = bo.Y
+					}
+					if other == nil || !derivesFrom(other, func(v ssa.Value) bool {
+						call, ok := v.(*ssa.Call)
+						return ok && strings.Contains(calleeName(call), "ForceUnwrapLeft")
+					}) {
+						continue
+					}
+					emptyIdx := 0
+					if (bo.Op == token.NEQ) == positive {
+						emptyIdx = 1
+					}
+					// on the "tag is empty" side every return is the mismatch
+					allMis := true
+					for _, e := range walkFrom(pos{b.Succs[emptyIdx], 0}, nil, isReturn, nil) {
+						vals := retVals(e.(*ssa.Return))
+						if len(vals) == 0 || !derivesFrom(vals[len(vals)-1], func(v ssa.Value) bool {
+							u, ok := v.(*ssa.UnOp)
+							if !ok {
+								return false
+							}
+							gl, ok := u.X.(*ssa.Global)
+							return ok && gname(gl) == "ErrIfRangeMismatch"
+						}) {
+							allMis = false
+						}
+					}
+					if allMis {
+						emptyRefused = true
+					}
+				}
+			}
+			r.Check(emptyRefused, "C07.R5", "an empty If-Range entity-tag is a mismatch", c.Pos(f.Pos()), "the tag taken from If-Range is tested against \"\" and that side returns the mismatch", "an empty If-Range is compared with the stored ETag like any other tag: when the origin sent no ETag both are empty, the comparison succeeds and the range is served although the client's validator names nothing")
+		}
 		// a date validator matches only the stored Last-Modified itself: later as well as earlier dates are mismatches
 		for _, hc := range helperContexts(f, 2) {
 			g := hc.fn
@@ -491,6 +582,24 @@ func checkC07(c *Ctx, r *Report) {
 					r.OkT("C07.R3", key, c.InstrPos(ret), "constant error")
 					return
 				}
+			}
+			// the validation written out in SliceSize itself: success is returned only where the five orderings are known
+			if isNilConst(ev) {
+				fs := factStrs(f, ret)
+				st, en, sz := atomStr(ret.Results[0]), atomStr(ret.Results[1]), "$dataSize"
+				if dsz := paramNamed(f, "dataSize"); dsz != nil {
+					sz = atomStr(dsz)
+				}
+				need := map[string]bool{st + ">-1": true, en + ">-1": true, st + "<" + sz: true, en + "<" + sz: true, en + "<" + st: false}
+				var missing []string
+				for a, want := range need {
+					if !fs[fmt.Sprintf("%s=%v", a, want)] {
+						missing = append(missing, fmt.Sprintf("%s=%v", a, want))
+					}
+				}
+				sort.Strings(missing)
+				r.Check(len(missing) == 0, "C07.R3", key, c.InstrPos(ret), "success is returned only where 0 <= start <= end < dataSize is known for the returned bounds", "SliceSize returns success without having established "+strings.Join(missing, ", ")+" for the bounds it returns")
+				return
 			}
 			r.Fail("C07.R3", key, c.InstrPos(ret), "SliceSize returns without validating the range (error is "+ev.String()+")")
 		})
